@@ -1,2 +1,245 @@
-(* C14 - placeholder *)
-From Coq Require Import NArith.
+(* C14 - TL serialisation: the bytes are the TL binary encoding, parsing them returns the value and consumes
+   exactly all bytes; constructor ids are the CRC-32 of the schema lines; block-identifier helpers are lossless. *)
+From Coq Require Import NArith ZArith List Bool String.
+From PTQ Require Import Base.Result Base.Bytes Model.Tl Spec.TlSpec Gen.TlSchemaTable Proofs.TlProofs.
+Import ListNotations.
+
+(* 1. every constructor id of the generated table is the CRC-32 of its (cleared) schema line *)
+Theorem C14_ids :
+  forallb (fun p : string * list N => nlist_eqb (crc32_be (bytes_of_string (clear_schema (fst p)))) (snd p)) tl_lines = true.
+Proof. exact ids_sweep. Qed.
+Print Assumptions C14_ids.
+
+Theorem C14_ids_all : forall line id, In (line, id) tl_lines -> crc32_be (bytes_of_string (clear_schema line)) = id.
+Proof. exact ids_all. Qed.
+Print Assumptions C14_ids_all.
+
+(* zlib.crc32(b"123456789") = 0xCBF43926; the two Bool constructors *)
+Example C14_crc_check : crc32_be [49;50;51;52;53;54;55;56;57]%N = [0xCB; 0xF4; 0x39; 0x26]%N.
+Proof. vm_compute. reflexivity. Qed.
+Example C14_id_boolTrue : s_ctor_id "boolTrue = Bool;" = [0x99; 0x72; 0x75; 0xb5]%N /\ s_bool true = rev (s_ctor_id "boolTrue = Bool;").
+Proof. vm_compute. split; reflexivity. Qed.
+Example C14_id_boolFalse : s_ctor_id "boolFalse = Bool;" = [0xbc; 0x79; 0x97; 0x37]%N /\ s_bool false = rev (s_ctor_id "boolFalse = Bool;").
+Proof. vm_compute. split; reflexivity. Qed.
+
+(* 5. BlockIdExt.to_bytes / from_bytes *)
+Theorem C14_blockid : forall wc shard seqno root file d,
+  block_id_to_bytes wc shard seqno root file = Ok d ->
+  List.length root = 32%nat -> List.length file = 32%nat ->
+  block_id_from_bytes d = (wc, shard, seqno, root, file) /\ List.length d = 80%nat.
+Proof. exact blockid_roundtrip. Qed.
+Print Assumptions C14_blockid.
+
+Example C14_blockid_ex :
+  block_id_to_bytes (-1) (-9223372036854775808) 3 (repeat 7%N 32) (repeat 9%N 32)
+  = Ok ([255;255;255;255; 128;0;0;0;0;0;0;0; 0;0;0;3]%N ++ repeat 7%N 32 ++ repeat 9%N 32).
+Proof. vm_compute. reflexivity. Qed.
+
+(* 3. int.to_bytes(len, 'little', signed=True) / int.from_bytes, every length *)
+Theorem C14_int : forall len z bs,
+  int_le_signed len z = Ok bs ->
+  int_of_le_signed bs = z /\ List.length bs = len /\ bs = s_int_le len z.
+Proof. exact int_roundtrip. Qed.
+Print Assumptions C14_int.
+
+Theorem C14_int_total : forall len z, s_int_range len z = true -> int_le_signed len z = Ok (s_int_le len z).
+Proof. exact int_le_signed_spec. Qed.
+Print Assumptions C14_int_total.
+
+Example C14_int_ex : int_le_signed 4 (-2) = Ok [254; 255; 255; 255]%N /\ int_le_signed 8 (2 ^ 63 - 1) = Ok [255;255;255;255;255;255;255;127]%N
+                     /\ int_le_signed 4 (2 ^ 31) = Err EOverflow.
+Proof. vm_compute. repeat split; reflexivity. Qed.
+
+(* 2. bytes / string framing, every length below 2^24 (the 253 / 254 boundary and the padding included) *)
+Theorem C14_frame : forall l, (N.of_nat (List.length l) < 16777216)%N ->
+  (List.length (frame_bytes l) mod 4 = 0)%nat /\
+  frame_bytes l = s_frame l /\
+  forall pre rest,
+    let d := (pre ++ frame_bytes l ++ rest)%list in
+    exists attach,
+      dprefix d (List.length pre) = (List.length l, attach, (List.length pre + attach)%nat) /\
+      bslice d (List.length pre + attach) (List.length pre + attach + List.length l) = l /\
+      dskip (List.length l) attach (List.length pre + attach + List.length l) =
+        (List.length pre + List.length (frame_bytes l))%nat.
+Proof.
+  intros l Hl. split; [apply frame_length_mod4|split; [apply frame_bytes_spec|]].
+  intros pre rest. apply frame_parse. exact Hl.
+Qed.
+Print Assumptions C14_frame.
+
+(* the same on the model itself: a constructor with a single bytes field, any table, every length below 2^24 *)
+Theorem C14_frame_model : forall tbl c fld sc l fuel,
+  c_args c = [mkArg fld None sc TBytes] ->
+  List.length (c_id c) = 4%nat ->
+  by_name tbl (c_name c) = Some c ->
+  by_id tbl (c_id c) = Some c ->
+  bytes_okb l = true ->
+  (N.of_nat (List.length l) < 16777216)%N ->
+  by_id tbl (rev (firstn 4 l)) = None ->
+  (2 <= fuel)%nat ->
+  serialize tbl fuel (c_name c) [(fld, TVBytes l)] = Ok (rev (c_id c) ++ frame_bytes l)%list /\
+  deserialize tbl fuel (rev (c_id c) ++ frame_bytes l)%list
+    = Ok (TVObj (c_name c) [(fld, TVBytes l)], (4 + List.length (frame_bytes l))%nat).
+Proof. exact frame_model. Qed.
+Print Assumptions C14_frame_model.
+
+Example C14_frame_253 : frame_bytes (repeat 1%N 253) = (253 :: repeat 1 253 ++ [0; 0])%N.
+Proof. vm_compute. reflexivity. Qed.
+Example C14_frame_254 : frame_bytes (repeat 1%N 254) = ([254; 254; 0; 0] ++ repeat 1 254 ++ [0; 0])%N.
+Proof. vm_compute. reflexivity. Qed.
+
+(* table facts, by computation on the GENERATED table: every id has 4 bytes; every constructor has distinct field
+   names and every conditional field is also conditional for serialize; 19 constructor names occur more than once
+   (a Python dict keeps the last); only 5 entries are shadowed by a different later entry; whatever a name resolves
+   to, its id resolves back to it *)
+Theorem C14_table_facts :
+  forallb (fun c => (List.length (c_id c) =? 4)%nat) tl_table &&
+  forallb ctor_okb tl_table &&
+  list_string_eqb (duplicate_names tl_table) tl_duplicate_names &&
+  list_string_eqb (map c_name (filter (fun c => negb (resolves_b tl_table c)) tl_table)) tl_shadowed_names &&
+  tbl_okb tl_table = true.
+Proof. exact table_facts. Qed.
+Print Assumptions C14_table_facts.
+
+Theorem C14_table_dups :
+  duplicate_names tl_table = tl_duplicate_names /\
+  tl_duplicate_names =
+    ["int"; "long"; "true"; "int128"; "tonNode.blockId"; "tonNode.blockIdExt"; "tonNode.zeroStateIdExt";
+     "adnl.message.query"; "adnl.message.answer"; "double"; "string"; "object"; "function"; "bytes"; "boolTrue";
+     "boolFalse"; "vector"; "int256"; "ton.blockId"]%string /\
+  tl_shadowed_names = ["bytes"; "int256"; "bytes"; "int256"; "ton.blockId"]%string.
+Proof. exact (conj table_dups (conj eq_refl eq_refl)). Qed.
+Print Assumptions C14_table_dups.
+
+(* the uniqueness hypotheses of C14_roundtrip_flat hold for every constructor whose name is not duplicated *)
+Theorem C14_table_resolves : forall c, In c tl_table -> existsb (String.eqb (c_name c)) tl_duplicate_names = false ->
+  by_name tl_table (c_name c) = Some c /\ by_id tl_table (c_id c) = Some c /\ ctor_okb c = true.
+Proof. exact table_resolves. Qed.
+Print Assumptions C14_table_resolves.
+
+Theorem C14_table_ok : forall n c, by_name tl_table n = Some c -> ctor_okb c = true /\ by_id tl_table (c_id c) = Some c.
+Proof. exact table_ok. Qed.
+Print Assumptions C14_table_ok.
+
+(* 4. round trip for constructors whose fields are all unconditional and of type Bool / # / int / long / int128 /
+   int256 / bytes / string, generic in the table.  flat_fields tbl args fs es: fs are the fields in order, each
+   well-typed (s_enc tbl 1 = Some e) and not auto-captured, es their spec encodings. *)
+Theorem C14_roundtrip_flat : forall tbl c fs es fuel,
+  flat_ctor c = true ->
+  NoDup (map a_field (c_args c)) ->
+  List.length (c_id c) = 4%nat ->
+  by_name tbl (c_name c) = Some c ->
+  by_id tbl (c_id c) = Some c ->
+  flat_fields tbl (c_args c) fs es ->
+  (2 <= fuel)%nat ->
+  let bytes := (rev (c_id c) ++ List.concat es)%list in
+  serialize tbl fuel (c_name c) fs = Ok bytes /\
+  deserialize tbl fuel bytes = Ok (TVObj (c_name c) fs, List.length bytes) /\
+  s_encode tbl 2 (c_name c) fs = Some bytes.
+Proof. exact roundtrip_flat. Qed.
+Print Assumptions C14_roundtrip_flat.
+
+(* liteServer.error code:int message:string, on the generated table *)
+Example C14_flat_ex :
+  let fs := [("code", TVInt (-400)); ("message", TVStr [104; 105]%N)]%string in
+  let bytes := [0x48; 0xe1; 0xa9; 0xbb; 0x70; 0xfe; 0xff; 0xff; 2; 104; 105; 0]%N in
+  serialize tl_table 2 "liteServer.error" fs = Ok bytes /\
+  deserialize tl_table 2 bytes = Ok (TVObj "liteServer.error" fs, 12%nat) /\
+  s_encode tl_table 2 "liteServer.error" fs = Some bytes.
+Proof. vm_compute. repeat split; reflexivity. Qed.
+
+(* the guard is necessary: a bytes payload that starts with a known constructor id comes back parsed
+   (adnl.message.answer query_id:int256 answer:bytes with answer = the 4 bytes of liteServer.currentTime + 4 more) *)
+Example C14_auto_capture_ex :
+  let payload := [0xe9; 0x53; 0x00; 0x0d]%N in
+  let fs := [("query_id", TVHex (repeat 0%N 32)); ("answer", TVBytes (rev payload ++ [1; 0; 0; 0]%N))]%string in
+  no_auto_capture tl_table (TVObj "adnl.message.answer" fs) = false /\
+  match serialize tl_table 3 "adnl.message.answer" fs with
+  | Ok bytes =>
+      deserialize tl_table 3 bytes =
+        Ok (TVObj "adnl.message.answer"
+              [("query_id", TVHex (repeat 0%N 32)); ("answer", TVObj "liteServer.currentTime" [("now", TVInt 1)])]%string,
+            List.length bytes)
+  | Err _ => False
+  end.
+Proof. vm_compute. split; reflexivity. Qed.
+
+(* 4'. round trip for ALL supported values, generic in the table: unconditional and conditional fields (present iff
+   the bit of the preceding mode / flags field is set, flags >= 0), nested bare and boxed objects, vectors of bare /
+   boxed objects, Bool / # / int / long / int128 / int256 / bytes / string leaves.
+   s_encode tbl m name fs = Some bytes says: {'@type': name, fs...} is well-typed (nesting depth < m) and bytes is
+   its TL encoding.  tbl_ok: whatever a name resolves to has distinct field names, a 4-byte id, and its id resolves
+   back to it (proved for the generated table: C14_table_ok). *)
+Theorem C14_roundtrip : forall tbl,
+  (forall n c, by_name tbl n = Some c -> ctor_okb c = true /\ by_id tbl (c_id c) = Some c) ->
+  forall m name fs bytes fuel,
+  s_encode tbl m name fs = Some bytes ->
+  no_auto_capture tbl (TVObj name fs) = true ->
+  (m <= fuel)%nat ->
+  serialize tbl fuel name fs = Ok bytes /\
+  deserialize tbl fuel bytes = Ok (TVObj name fs, List.length bytes).
+Proof. exact roundtrip. Qed.
+Print Assumptions C14_roundtrip.
+
+(* ... and for the generated table without any table hypothesis *)
+Theorem C14_roundtrip_table : forall m name fs bytes fuel,
+  s_encode tl_table m name fs = Some bytes ->
+  no_auto_capture tl_table (TVObj name fs) = true ->
+  (m <= fuel)%nat ->
+  serialize tl_table fuel name fs = Ok bytes /\
+  deserialize tl_table fuel bytes = Ok (TVObj name fs, List.length bytes).
+Proof. exact roundtrip_table. Qed.
+Print Assumptions C14_roundtrip_table.
+
+(* non-vacuity: a conditional field present (bit 1) and one absent (bit 2), a nested bare object *)
+Example C14_roundtrip_ex_flags :
+  let fs := [("mode", TVInt 2);
+             ("id", TVObj "tonNode.blockId" [("workchain", TVInt (-1)); ("shard", TVInt (-9223372036854775808)); ("seqno", TVInt 7)]);
+             ("lt", TVInt 1000)]%string in
+  s_encode tl_table 3 "liteServer.lookupBlock" fs =
+    Some [30; 247; 200; 250;  2; 0; 0; 0;  255; 255; 255; 255;  0; 0; 0; 0; 0; 0; 0; 128;  7; 0; 0; 0;
+          232; 3; 0; 0; 0; 0; 0; 0]%N /\
+  no_auto_capture tl_table (TVObj "liteServer.lookupBlock" fs) = true.
+Proof. vm_compute. split; reflexivity. Qed.
+
+(* a vector of bare objects (no '@type' on the elements) with bytes fields *)
+Example C14_roundtrip_ex_vector_bare :
+  let fs := [("result", TVVec [TVObj "" [("hash", TVHex (repeat 1%N 32)); ("data", TVBytes [1; 2; 3]%N)];
+                               TVObj "" [("hash", TVHex (repeat 2%N 32)); ("data", TVBytes [])]])]%string in
+  s_encode tl_table 4 "liteServer.libraryResult" fs =
+    Some ([107; 185; 122; 17;  2; 0; 0; 0] ++ repeat 1 32 ++ [3; 1; 2; 3] ++ repeat 2 32 ++ [0; 0; 0; 0])%N /\
+  no_auto_capture tl_table (TVObj "liteServer.libraryResult" fs) = true.
+Proof. vm_compute. split; reflexivity. Qed.
+
+(* a vector of boxed objects of a class with several constructors *)
+Example C14_roundtrip_ex_vector_boxed :
+  let fs := [("addrs", TVVec [TVObj "adnl.address.udp" [("ip", TVInt 2130706433); ("port", TVInt 3333)]]);
+             ("version", TVInt 1); ("reinit_date", TVInt 2); ("priority", TVInt 0); ("expire_at", TVInt 0)]%string in
+  s_encode tl_table 4 "adnl.addressList" fs =
+    Some [88; 230; 39; 34;  1; 0; 0; 0;  231; 166; 13; 103;  1; 0; 0; 127;  5; 13; 0; 0;
+          1; 0; 0; 0;  2; 0; 0; 0;  0; 0; 0; 0;  0; 0; 0; 0]%N /\
+  no_auto_capture tl_table (TVObj "adnl.addressList" fs) = true.
+Proof. vm_compute. split; reflexivity. Qed.
+
+(* NOT covered, and false: vectors of int / long / int256 / bytes / string (33 of the 114 vector fields of the
+   generated table).  Parsing liteServer.getConfigParams {param_list = [5; 6]} returns two empty objects and
+   stops 8 bytes before the end. *)
+Theorem C14_vector_int_refuted :
+  match serialize tl_table 4 "liteServer.getConfigParams" vector_int_witness with
+  | Ok bytes =>
+      List.length bytes = 100%nat /\
+      lastn_is bytes [2; 0; 0; 0; 5; 0; 0; 0; 6; 0; 0; 0]%N = true /\
+      match deserialize tl_table 4 bytes with
+      | Ok (TVObj _ fs, used) => used = 92%nat /\ assoc fs "param_list" = Some (TVVec [TVObj "" []; TVObj "" []])
+      | _ => False
+      end
+  | Err _ => False
+  end.
+Proof. exact vector_int_refuted. Qed.
+Print Assumptions C14_vector_int_refuted.
+
+Theorem C14_unsupported_vectors :
+  List.length (flat_map (fun c => filter (fun a => match a_ty a with TVector _ _ _ => true | _ => false end) (c_args c)) tl_table) = 114%nat /\
+  List.length (flat_map (fun c => filter (fun a => match a_ty a with TVector el en nm => negb (s_vector_supported el en nm) | _ => false end) (c_args c)) tl_table) = 33%nat.
+Proof. exact unsupported_vectors. Qed.
+Print Assumptions C14_unsupported_vectors.
